@@ -60,6 +60,9 @@ func quotes(ss []string) string {
 }
 
 func sortedQuotes(ss []string) string {
+	// Sort a copy. The given slice may be shared with other goroutines checking other files (e.g.
+	// values of built-in tables or of a config) so it must not be modified
+	ss = append([]string(nil), ss...)
 	sort.Strings(ss)
 	return quotes(ss)
 }
